@@ -36,6 +36,9 @@ type harnessSpec struct {
 	BudgetViolation  bool // exceeding the instruction budget is the violation (termination properties)
 	MaxSteps         int64
 	MaxStepsThorough int64
+	// ThoroughCore > 0: in the thorough tier only the first ThoroughCore variants (the core contexts) run with
+	// the Thorough parameters; the remaining variants keep the Quick parameters (stated in the evidence per variant)
+	ThoroughCore int
 	Goroutine        bool
 	ReplayTimeout    time.Duration
 	Setup            func(i *interpreter)
@@ -422,8 +425,12 @@ func cmdCheck(args []string) int {
 		if len(variants) == 0 {
 			variants = []map[string]int{nil}
 		}
-		for _, vr := range variants {
-			params := mergeParams(base, vr, kfParams)
+		for vk, vr := range variants {
+			vbase := base
+			if *tier == "thorough" && h.ThoroughCore > 0 && vk >= h.ThoroughCore {
+				vbase = h.Quick
+			}
+			params := mergeParams(vbase, vr, kfParams)
 			want := map[string]bool{}
 			for _, w := range h.WantInit {
 				want[w] = true
